@@ -56,6 +56,110 @@ pub fn verdict(l: &mut Local, c: &Case, results: &Results) {
     }
 }
 
+/// The requests of `reqs` in stretches of 256, each stretch handled in order
+/// (UDP then TCP per request) by one thread on a response buffer that is not
+/// restored between the calls (`qd::dirty_begin`), on every slot without RRL.
+fn run_reusing_buffer(ctx: &Ctx, world: &World, slots: &[Slot], gname: &str, reqs: &[families::Req]) {
+    let mut items: Vec<(usize, usize)> = Vec::new();
+    for s in 0..slots.len() {
+        let mut i = 0;
+        while i < reqs.len() {
+            items.push((s, i));
+            i += STRETCH;
+        }
+    }
+    ctx.par_for_each(&items, |l, (s, start)| {
+        crate::common::thread_init();
+        let slot = &slots[*s];
+        qvlib::qd::dirty_begin();
+        for (k, r) in reqs[*start..(*start + STRETCH).min(reqs.len())].iter().enumerate() {
+            for tp in drive::TPS {
+                let results = slot.exchange(world, &r.bytes, tp);
+                l.tick_n(results.len() as u64);
+                verdict(l, &Case { slot, tp, family: "query/reused-buffer", desc: &|| format!("{} | stretch {gname} {start} {k}", r.desc), req: &r.bytes }, &results);
+            }
+        }
+        qvlib::qd::dirty_end();
+    });
+}
+
+const STRETCH: usize = 256;
+
+/// The request lists of the reused-buffer regime, by name (replay rebuilds
+/// the stretch from it).
+fn reuse_universe(gname: &str, quick: bool) -> Vec<families::Req> {
+    let qtypes: &[u16] = if quick { &zones::QTYPES_QUICK } else { &zones::QTYPES_THOROUGH };
+    let decos = [zones::Deco::Plain, zones::Deco::Tsig { key: 1 }];
+    match gname {
+        "std" => zones::query_universe(&zones::name_universe(&std_recs_with_extras()), qtypes, &[c::IN], &decos),
+        "deep" => zones::query_universe(&zones::name_universe(&zones::deep_zone_recs()), qtypes, &[c::IN], &decos),
+        "big" => zones::query_universe(&big_names(), qtypes, &[c::IN], &decos),
+        other => zones::large_universes().into_iter().find(|(n, _)| *n == other).map(|(_, r)| r).unwrap_or_default(),
+    }
+}
+
+/// Replay of a reused-buffer case: the stretch is re-run from its start on a
+/// freshly poisoned buffer up to and including the recorded request.
+fn replay_reused(ctx: Ctx, world: &World) -> ! {
+    crate::common::thread_init();
+    let case = ctx.replay_case().unwrap().clone();
+    let ci = crate::common::parse_case(&case);
+    let tail = ci.desc.rsplit_once(" | stretch ").map(|(_, t)| t.to_string()).unwrap_or_default();
+    let parts: Vec<&str> = tail.split(' ').collect();
+    let (gname, start, k) = (parts[0], parts[1].parse::<usize>().expect("stretch start"), parts[2].parse::<usize>().expect("stretch index"));
+    let slot = Slot::new(world, &ci.cat, ci.cfg);
+    let mut found = false;
+    for quick in [true, false] {
+        let reqs = reuse_universe(gname, quick);
+        if reqs.get(start + k).map(|r| r.bytes == ci.req) != Some(true) {
+            continue;
+        }
+        found = true;
+        qvlib::qd::dirty_begin();
+        let mut l = ctx.local();
+        for (j, r) in reqs[start..=start + k].iter().enumerate() {
+            for tp in drive::TPS {
+                let results = slot.exchange(world, &r.bytes, tp);
+                if j == k && tp == ci.tp {
+                    println!("replay: stretch {gname} from {start}, request {k}: {}", r.desc);
+                    for (i, x) in results.iter().enumerate() {
+                        println!("result[{i}]: {}", show(x));
+                    }
+                    l.tick();
+                    let desc = ci.desc.clone();
+                    verdict(&mut l, &Case { slot: &slot, tp, family: "query/reused-buffer", desc: &|| desc.clone(), req: &r.bytes }, &results);
+                }
+            }
+        }
+        drop(l);
+        qvlib::qd::dirty_end();
+        break;
+    }
+    if !found {
+        eprintln!("MACHINERY: the recorded request is not at position {start}+{k} of universe {gname}");
+        std::process::exit(2);
+    }
+    println!("replay verdict: {}", if ctx.violation_count() > 0 { "VIOLATION reproduced" } else { "no violation" });
+    ctx.finish("exploration", RULE, false)
+}
+
+fn std_recs_with_extras() -> Vec<qvlib::qd::Rec> {
+    let mut std_recs = qvlib::fixtures::std_zone_recs();
+    // names of the other fixture zones (CH zone, failed+child)
+    std_recs.push(qvlib::qd::Rec::new(&qvlib::wire::wname("host.t."), t::A, c::IN, 1, &[1, 2, 3, 4]));
+    std_recs
+}
+
+/// The big zone has thousands of similar owners: the apex, the three big
+/// owners, the first and last member of each series, names below the cut and
+/// a missing name.
+fn big_names() -> Vec<Vec<u8>> {
+    ["big.", "x.big.", "X.Big.", "y.big.", "z.big.", "a.z.big.", "n0000.z.big.", "n0899.z.big.", "h0000.y.big.", "h1099.y.big.", "m1.big.", "ns.big.", "nx.big.", "q.x.big."]
+        .iter()
+        .map(|n| qvlib::wire::wname(n))
+        .collect()
+}
+
 fn bucket(n: usize) -> &'static str {
     match n {
         0 => "0",
@@ -77,7 +181,10 @@ pub fn world(quick: bool) -> World {
 
 pub fn run(ctx: Ctx) -> ! {
     let world = world(ctx.quick());
-    if ctx.replay_case().is_some() {
+    if let Some(case) = ctx.replay_case() {
+        if case["family"].as_str() == Some("query/reused-buffer") {
+            replay_reused(ctx, &world);
+        }
         replay(ctx, &world, verdict, RULE);
     }
     let cfgs = all_cfgs();
@@ -107,22 +214,14 @@ pub fn run(ctx: Ctx) -> ! {
     let qtypes: &[u16] = if ctx.quick() { &zones::QTYPES_QUICK } else { &zones::QTYPES_THOROUGH };
     let qclasses: &[u16] = if ctx.quick() { &[c::IN, c::CH, c::ANY] } else { &[c::IN, c::CH, c::HS, c::NONE, c::ANY] };
     let decos: &[zones::Deco] = if ctx.quick() { &zones::DECOS_QUICK } else { &zones::DECOS_THOROUGH };
-    let mut std_recs = qvlib::fixtures::std_zone_recs();
-    // names of the other fixture zones (CH zone, failed+child)
-    std_recs.push(qvlib::qd::Rec::new(&qvlib::wire::wname("host.t."), t::A, c::IN, 1, &[1, 2, 3, 4]));
+    let std_recs = std_recs_with_extras();
     let groups: Vec<(&str, Vec<&str>, Vec<Vec<u8>>)> = vec![
         ("std", all.iter().copied().filter(|n| !["deep", "big", "wide", "straddle"].contains(n)).collect(), zones::name_universe(&std_recs)),
         ("deep", vec!["deep"], zones::name_universe(&zones::deep_zone_recs())),
         (
             "big",
             vec!["big"],
-            // the big zone has thousands of similar owners: the apex, the
-            // three big owners, the first and last member of each series,
-            // names below the cut and a missing name
-            ["big.", "x.big.", "X.Big.", "y.big.", "z.big.", "a.z.big.", "n0000.z.big.", "n0899.z.big.", "h0000.y.big.", "h1099.y.big.", "m1.big.", "ns.big.", "nx.big.", "q.x.big."]
-                .iter()
-                .map(|n| qvlib::wire::wname(n))
-                .collect(),
+            big_names(),
         ),
     ];
     let mut universe_sizes: Vec<qvlib::Value> = Vec::new();
@@ -140,6 +239,24 @@ pub fn run(ctx: Ctx) -> ! {
         drive::run_reqs(&ctx, &world, &slots_of(&[gname]), &reqs, false, verdict);
         eprintln!("[C02] query universe {gname} done at {:.1}s ({} calls)", ctx.elapsed_s(), ctx.evaluations());
     }
+    // Second response-buffer regime (the providers reuse one buffer for all
+    // requests): the queries of the universes in stretches of 256, each
+    // stretch handled in order on a buffer that is not restored between the
+    // calls, so every call starts on what the earlier calls of its stretch
+    // left behind instead of the 0xff fill. A compression scan that reads beyond what it has written then
+    // finds matching labels and emits a pointer into the stale part, which
+    // the strict decoder rejects.
+    for (gname, gcats, _names) in &groups {
+        let reqs = reuse_universe(gname, ctx.quick());
+        let gslots: Vec<Slot> = slots_of(gcats).into_iter().filter(|s| s.cfg.rrl.is_none()).collect();
+        run_reusing_buffer(&ctx, &world, &gslots, gname, &reqs);
+        eprintln!("[C02] query universe {gname} (reused buffer) done at {:.1}s ({} calls)", ctx.elapsed_s(), ctx.evaluations());
+    }
+    for (gname, reqs) in zones::large_universes() {
+        let gslots: Vec<Slot> = slots_of(&[gname]).into_iter().filter(|s| s.cfg.rrl.is_none()).collect();
+        run_reusing_buffer(&ctx, &world, &gslots, gname, &reqs);
+        eprintln!("[C02] query universe {gname} (reused buffer) done at {:.1}s ({} calls)", ctx.elapsed_s(), ctx.evaluations());
+    }
     ctx.set_extra("query_universes", json!(universe_sizes));
 
     if !ctx.quick() {
@@ -156,4 +273,4 @@ pub fn run(ctx: Ctx) -> ! {
 
 
 
-const RULE: &str = "every truncation and every single-field/structural mutation of every request template (thorough: x every truncation, and all mutation pairs), plus names-near-zone-data x QTYPEs x QCLASSes x {plain,EDNS,TSIG,EDNS+TSIG}; x transports x server configurations x catalogs with valid RDATA; oracle: strict independent RFC 1035 decode of every response + OPT at most once and only in additional + TSIG at most once and last";
+const RULE: &str = "every truncation and every single-field/structural mutation of every request template (thorough: x every truncation, and all mutation pairs), plus names-near-zone-data x QTYPEs x QCLASSes x {plain,EDNS,TSIG,EDNS+TSIG} (and, class IN, in stretches of 256 consecutive queries handled on one response buffer that is not restored in between); x transports x server configurations x catalogs with valid RDATA; oracle: strict independent RFC 1035 decode of every response + OPT at most once and only in additional + TSIG at most once and last";
